@@ -348,9 +348,21 @@ class FIXContainer:
         Raises:
             FIXMessageError: group comparison not supported
         """
-        # if our string representation looks the same, the objects are equivalent
         if isinstance(other, FIXContainer):
-            return self.__str__() == other.__str__()
+            # same tags in the same order, with the same values / group items
+            if list(self.tags.keys()) != list(other.tags.keys()):
+                return False
+            for tag, value in self.tags.items():
+                other_value = other.tags[tag]
+                is_grp = isinstance(value, _FIXRepeatingGroupContainer)
+                if is_grp != isinstance(other_value, _FIXRepeatingGroupContainer):
+                    return False
+                if is_grp:
+                    if value.groups != other_value.groups:
+                        return False
+                elif value != other_value:
+                    return False
+            return True
         elif isinstance(other, dict):
             ignore_tags = {
                 FTag.BeginString,
